@@ -43,7 +43,18 @@ func (self *Core) runInstruction(instruction compiler.Instruction) *value.VmInte
 			)
 		}
 	case compiler.Opcode_Clone:
+		// Emitted for the iterable of a `for` loop, which iterates over a snapshot: a list is copied one level deep
+		// (new cells, the elements themselves stay shared: lists and objects are references), like the interpreter does.
 		v := self.pop()
+		if list, isList := (*v).(value.ValueList); isList {
+			snapshot := make([]*value.Value, len(*list.Values))
+			for idx, elem := range *list.Values {
+				elemCopy := *elem
+				snapshot[idx] = &elemCopy
+			}
+			self.push(value.NewValueList(snapshot))
+			break
+		}
 		cloned := (*v).Clone()
 		self.push(cloned)
 	case compiler.Opcode_Copy_Push:
